@@ -13,11 +13,23 @@ from . import common as C
 CL = "vc1"
 
 
-def gen_spec(rng, n_m=4, n_p=3, n_v=3, pkg="vpk", p_hidden=0.15, p_explicit=0.2, allow_cycles=True, n_u=1):
+def modpath(spec, mod):
+    """import path of module a / b (package spec["pkg"]) or c (a second package, spec["pkg"] + "2")"""
+    return (spec["pkg"] + "2.c") if mod == "c" else (spec["pkg"] + "." + mod)
+
+
+def modules_of(spec):
+    return ["a", "b"] + (["c"] if any(n["module"] == "c" for n in spec["nodes"]) else [])
+
+
+def gen_spec(rng, n_m=4, n_p=3, n_v=3, pkg="vpk", p_hidden=0.15, p_explicit=0.2, allow_cycles=True, n_u=1, pkg2=False, outside_helpers=False):
     nodes = []
     names = []
-    for i in range(n_u):
-        nodes.append({"name": "U%d" % i, "kind": "u", "module": rng.choice("ab")})
+    unames = ["U%d" % i for i in range(n_u)]
+    if n_u and rng.random() < 0.5:
+        unames[-1] = rng.choice(["divmod", "format", "round"])        # a name that is a builtin until the module defines it
+    for nm in unames:
+        nodes.append({"name": nm, "kind": "u", "module": rng.choice("ab")})
     for i in range(n_v):
         kind = rng.choice(["int", "int", "str", "list", "dict", "float", "unsupported"])
         val = {"int": rng.randint(1, 9), "str": "s%d" % rng.randint(1, 9), "list": [rng.randint(1, 5), rng.randint(1, 5)],
@@ -27,6 +39,19 @@ def gen_spec(rng, n_m=4, n_p=3, n_v=3, pkg="vpk", p_hidden=0.15, p_explicit=0.2,
         nodes.append({"name": "h%d" % i, "kind": "p", "module": rng.choice("ab")})
     for i in range(n_m):
         nodes.append({"name": "m%d" % i, "kind": "m", "module": rng.choice("ab")})
+    if pkg2:
+        # a second package with one module: a memento function there, its plain helper and a variable
+        for n in nodes:
+            if n["kind"] != "u" and rng.random() < 0.3:
+                n["module"] = "c"
+        for kind, prefix in (("m", "m"), ("p", "h")):
+            if not any(n["kind"] == kind and n["module"] == "c" for n in nodes):
+                cands = [n for n in nodes if n["kind"] == kind]
+                if len(cands) > 1:
+                    rng.choice(cands[1:] if kind == "m" else cands)["module"] = "c"
+    if pkg2 and outside_helpers:
+        # a plain function of the second package that only functions of the first package use directly: outside their package scope
+        nodes.append({"name": "hx", "kind": "p", "module": "c", "outside": True})
     fns = [n for n in nodes if n["kind"] in "mp"]
     for n in fns:
         n["const"] = rng.randint(1, 50)
@@ -41,6 +66,10 @@ def gen_spec(rng, n_m=4, n_p=3, n_v=3, pkg="vpk", p_hidden=0.15, p_explicit=0.2,
         n["hidden"] = None
         n["refs"] = []
         cands = [c for c in nodes if c is not n and (c["kind"] != "u" or c["module"] == n["module"])]
+        if n["module"] == "c":
+            cands = [c for c in cands if c["module"] == "c" and not c.get("outside")]
+        else:
+            cands = [c for c in cands if not (c["module"] == "c" and c["kind"] == "p" and not c.get("outside"))]   # plain helpers are used within their package
         for c in rng.sample(cands, rng.randint(0, min(4, len(cands)))):
             if not allow_cycles and c["kind"] in "mp" and fns.index(c) >= fns.index(n):
                 continue
@@ -53,10 +82,14 @@ def gen_spec(rng, n_m=4, n_p=3, n_v=3, pkg="vpk", p_hidden=0.15, p_explicit=0.2,
                 form = "alias"
             n["refs"].append([c["name"], form])
     for n in fns:
+        # a nested scope (lambda parameter) named like a module variable the function reads
+        vrefs = [r[0] for r in n["refs"] if r[1] == "bare" and node({"nodes": nodes}, r[0])["kind"] == "v"]
+        n["shadow"] = rng.choice(vrefs) if vrefs and rng.random() < 0.6 else None
+    for n in fns:
         if n["kind"] == "m" and rng.random() < p_explicit:
             n["explicit"] = rng.choice(["1", "2", "12", "v1"])
         if rng.random() < p_hidden:
-            ms = [c["name"] for c in nodes if c["kind"] == "m" and c is not n]
+            ms = [c["name"] for c in nodes if c["kind"] == "m" and c is not n and (n["module"] != "c" or c["module"] == "c")]
             if ms:
                 n["hidden"] = rng.choice(ms)
     return {"pkg": pkg, "nodes": nodes}
@@ -97,6 +130,8 @@ def def_lines(spec, n):
         out.append("    r += (%d, %d)[x %% 2]" % tuple(n["tupconst"]))
     if n["nested"] is not None:
         out.append("    r += sum(v * %d for v in (1, 2))" % n["nested"])
+    if n.get("shadow"):
+        out.append("    r += (lambda %s: %s + 1)(0)" % (n["shadow"], n["shadow"]))
     if n.get("pair") is not None:
         out.append("    r += x * %d + %d" % tuple(n["pair"]))
     if n.get("sset") is not None:
@@ -127,10 +162,18 @@ def def_lines(spec, n):
     return out, aliases
 
 
+def import_lines(spec, mod):
+    if mod == "c":
+        return []
+    lines = ["from . import %s" % ("b" if mod == "a" else "a")]
+    if "c" in modules_of(spec):
+        lines.append("from %s2 import c" % spec["pkg"])
+    return lines
+
+
 def render_module(spec, mod, order_rng=None, plain=False):
-    other = "b" if mod == "a" else "a"
     imp = "def memento_function(**kw):\n    return lambda f: f" if plain else "from twosigma.memento import memento_function"
-    out = ["import builtins", imp, "from . import %s" % other, ""]
+    out = ["import builtins", imp] + import_lines(spec, mod) + [""]
     mine = [n for n in spec["nodes"] if n["module"] == mod]
     if order_rng is not None:
         mine = list(mine)
@@ -173,6 +216,13 @@ def render(spec, root, order_rng=None, plain=False):
     for mod in "ab":
         with open(os.path.join(d, mod + ".py"), "w") as f:
             f.write(render_module(spec, mod, order_rng, plain))
+    if "c" in modules_of(spec):
+        d2 = os.path.join(root, spec["pkg"] + "2")
+        os.makedirs(d2, exist_ok=True)
+        with open(os.path.join(d2, "__init__.py"), "w") as f:
+            f.write("")
+        with open(os.path.join(d2, "c.py"), "w") as f:
+            f.write(render_module(spec, "c", order_rng, plain))
     return d
 
 
@@ -233,13 +283,16 @@ def edit(rng, spec):
             n["const"] += 1
             return s, "explicit version and body of %s" % n["name"]
         if kind == "add-ref":
-            cands = [c for c in s["nodes"] if c is not n and c["kind"] != "u" and c["name"] not in [r[0] for r in n["refs"]]]
+            cands = [c for c in s["nodes"] if c is not n and c["kind"] != "u" and c["name"] not in [r[0] for r in n["refs"]]
+                     and ((c["module"] == "c") if n["module"] == "c" else not (c["module"] == "c" and c["kind"] == "p"))]
             if cands:
                 c = rng.choice(cands)
                 n["refs"].append([c["name"], "attr" if c["module"] != n["module"] else "bare"])
                 return s, "new call edge %s -> %s" % (n["name"], c["name"])
         if kind == "drop-ref" and n["refs"]:
             r = n["refs"].pop(rng.randrange(len(n["refs"])))
+            if n.get("shadow") == r[0]:
+                n["shadow"] = None
             return s, "removed call edge %s -> %s" % (n["name"], r[0])
     fns[0]["const"] += 1
     return s, "body constant of %s" % fns[0]["name"]
@@ -262,16 +315,20 @@ m.Environment.set(m.Environment(name="e", base_dir=cfg["root"], repos=[m.Configu
 events = []
 builtins._vt = events.append
 mods = {}
+MODS = {"a": cfg["pkg"] + ".a", "b": cfg["pkg"] + ".b"}
+if os.path.isdir(os.path.join(cfg["root"], cfg["pkg"] + "2")):
+    MODS["c"] = cfg["pkg"] + "2.c"
 order = cfg.get("import_order", ["a", "b"])
 for mod in order:
-    mods[mod] = importlib.import_module(cfg["pkg"] + "." + mod)
-for mod in "ab":
-    mods.setdefault(mod, importlib.import_module(cfg["pkg"] + "." + mod))
+    mods[mod] = importlib.import_module(MODS[mod])
+for mod in MODS:
+    mods.setdefault(mod, importlib.import_module(MODS[mod]))
 out = {"versions": {}, "calls": [], "deps": {}}
 def fn(name):
-    for mod in "ab":
-        if hasattr(mods[mod], name):
-            return getattr(mods[mod], name)
+    for mod in MODS:
+        f = getattr(mods[mod], name, None)
+        if f is not None and getattr(f, "__module__", "") == MODS[mod]:
+            return f
 for name in cfg.get("version_order", []):
     f = fn(name)
     try:
@@ -325,10 +382,14 @@ PLAIN = r'''
 import importlib, json, sys
 cfg = json.loads(sys.argv[1])
 sys.path.insert(0, cfg["root"])
-mods = {m: importlib.import_module(cfg["pkg"] + "." + m) for m in "ab"}
+import os
+MODS = {"a": cfg["pkg"] + ".a", "b": cfg["pkg"] + ".b"}
+if os.path.isdir(os.path.join(cfg["root"], cfg["pkg"] + "2")):
+    MODS["c"] = cfg["pkg"] + "2.c"
+mods = {m: importlib.import_module(p) for m, p in MODS.items()}
 out = []
 for name, x in cfg["calls"]:
-    f = getattr(mods["a"], name) if hasattr(mods["a"], name) else getattr(mods["b"], name)
+    f = [getattr(mods[m], name) for m in MODS if getattr(getattr(mods[m], name, None), "__module__", "") == MODS[m]][0]
     try:
         out.append(["val", f(x)])
     except Exception as e:
@@ -364,27 +425,34 @@ storage = MemoryStorageBackend() if cfg["store"] is None else FilesystemStorageB
 m.Environment.set(m.Environment(name="e", base_dir=cfg["root"], repos=[m.ConfigurationRepository(name="r", clusters={cfg["cluster"]: m.FunctionCluster(name=cfg["cluster"], storage=storage)})]))
 events = []
 builtins._vt = events.append
-pkgdir = os.path.join(cfg["root"], cfg["pkg"])
+def moddir(mod):
+    return os.path.join(cfg["root"], cfg["pkg"] + ("2" if mod == "c" else ""))
 mods = {}
+MODS = {}
 def fn(name):
-    for mod in "ab":
+    for mod in MODS:
         f = getattr(mods[mod], name, None)
-        if f is not None and getattr(f, "__module__", "").endswith("." + mod):
+        if f is not None and getattr(f, "__module__", "") == MODS[mod]:
             return f
 out = []
 for k, ed in enumerate(cfg["editions"]):
     for mod, src in ed["files"].items():
-        with open(os.path.join(pkgdir, mod + ".py"), "w") as f:
+        os.makedirs(moddir(mod), exist_ok=True)
+        init = os.path.join(moddir(mod), "__init__.py")
+        if not os.path.exists(init):
+            open(init, "w").close()
+        with open(os.path.join(moddir(mod), mod + ".py"), "w") as f:
             f.write(src)
     importlib.invalidate_caches()
     if k == 0:
-        for mod in "ab":
-            mods[mod] = importlib.import_module(cfg["pkg"] + "." + mod)
+        MODS = {mod: cfg["pkg"] + ("2.c" if mod == "c" else "." + mod) for mod in sorted(ed["files"])}
+        for mod in MODS:
+            mods[mod] = importlib.import_module(MODS[mod])
     else:
         for mod in sorted(ed["files"]):
             if ed.get("how") == "exec":
                 import linecache
-                fname = os.path.join(pkgdir, mod + ".py")
+                fname = os.path.join(moddir(mod), mod + ".py")
                 linecache.checkcache(fname)
                 exec(compile(ed["files"][mod], fname, "exec"), mods[mod].__dict__)
             else:
@@ -435,14 +503,19 @@ from twosigma.memento.memento import MementoFunction
 from twosigma.memento.storage_memory import MemoryStorageBackend
 m.Environment.set(m.Environment(name="e", base_dir=cfg["root"], repos=[m.ConfigurationRepository(name="r", clusters={cfg["cluster"]: m.FunctionCluster(name=cfg["cluster"], storage=MemoryStorageBackend())})]))
 builtins._vt = [].append
-mods = {mod: importlib.import_module(cfg["pkg"] + "." + mod) for mod in cfg.get("import_order", ["a", "b"])}
+MODS = {"a": cfg["pkg"] + ".a", "b": cfg["pkg"] + ".b"}
+if os.path.isdir(os.path.join(cfg["root"], cfg["pkg"] + "2")):
+    MODS["c"] = cfg["pkg"] + "2.c"
+mods = {mod: importlib.import_module(MODS[mod]) for mod in cfg.get("import_order", ["a", "b"])}
+for mod in MODS:
+    mods.setdefault(mod, importlib.import_module(MODS[mod]))
 extra = {}
 def fn(name):
     if name in extra:
         return extra[name]
-    for mod in "ab":
+    for mod in MODS:
         f = getattr(mods[mod], name, None)
-        if f is not None and getattr(f, "__module__", "").endswith("." + mod):
+        if f is not None and getattr(f, "__module__", "") == MODS[mod]:
             return f
 out = []
 snip = 0
